@@ -101,6 +101,9 @@ def _compare(X, sent, got, tname, who, plain=False):
             X.check(b.cls == a.cls, f"C26/{tn}/class", f"{s}[{i}] class changed")
             X.check(b.ttl == a.ttl, f"C26/{tn}/ttl", f"{s}[{i}] ttl changed")
             sfx = "/plain-data" if plain and s == "an" else ""
+            # messages that carry an IDN (xn--) name are a class of their own (a recorded defect miscounts their length)
+            if any(l.lower().startswith(b"xn--") for q in sent.qd for l in q.name):
+                sfx += "/idn-name"
             for fa, fb in zip(a.fields, b.fields):
                 if fb[0] == "error":
                     X.fail(f"C26/{tn}/{fa[1]}/unreadable{sfx}", f"{s}[{i}] (type {tn}) field {fa[1]} of the forwarded record cannot be read: {fb[2]}")
@@ -161,7 +164,7 @@ def _record_spec(X, tname, qname, tag="r"):
             serial = (s16 << 16) | 0x0001 if half == "hi" else (0x7A11 << 16) | s16
         # the SOA names may lie in a zone that occurs nowhere earlier in the message: a compressing server then points the RNAME's
         # suffix INTO the MNAME of the same record data (e.g. amy.ns.cloudflare.com / dns.cloudflare.com for a customer domain)
-        zone = X.choose(f"{tag}.soa_zone", ["query-zone", "other-zone"])
+        zone = X.choose(f"{tag}.soa_zone", ["query-zone", "other-zone"]) if half == "plain" else "query-zone"  # (not crossed with the symbolic serial)
         mname, rname = (sub, (b"h",) + qname) if zone == "query-zone" else ((b"ns", b"zone", b"test"), (b"h", b"zone", b"test"))
         if zone == "other-zone":
             X.reach("pointer-into-own-rdata")
